@@ -166,6 +166,21 @@ func (in *Inst) at(point string, a, b, c int64) {
 	}
 }
 
+// Disarm opens every gate for good and releases the goroutines waiting at them.
+func (in *Inst) Disarm() {
+	in.mu.Lock()
+	for p := range in.armed {
+		in.armed[p] = false
+	}
+	for p, ws := range in.waiting {
+		for _, ch := range ws {
+			close(ch)
+		}
+		in.waiting[p] = nil
+	}
+	in.mu.Unlock()
+}
+
 // Log appends a driver-level (API) event to the trace.
 func (in *Inst) Log(e Ev) {
 	in.mu.Lock()
